@@ -434,7 +434,7 @@ impl<I: PrimInt, T> Lapper<I, T>
             let mut temp_lapper = Lapper::new(intersections);
             temp_lapper.merge_overlaps();
             temp_lapper.set_cov();
-            let union = self.cov() + other.cov() - temp_lapper.cov();
+            let union = self.cov() - temp_lapper.cov() + other.cov();
             (union, temp_lapper.cov())
         } else {
             let mut intersect = zero::<I>();
@@ -444,7 +444,7 @@ impl<I: PrimInt, T> Lapper<I, T>
                     intersect = intersect + local_intersect;
                 }
             }
-            let union = self.cov() + other.cov() - intersect;
+            let union = self.cov() - intersect + other.cov();
             (union, intersect)
         }
     }
